@@ -18,8 +18,20 @@ typedef struct etl_basic_string_view_char16_t SV;
 #define LT(a, b) ((a) < (b))
 #endif
 #define NPOS (~0UL)
-#define HMAX 6   /* bounded groups: haystack length <= HMAX */
-#define NMAX 3   /* bounded groups: needle / character-set length <= NMAX */
+/* bounded groups: haystack length <= HMAX, needle / character-set length <= NMAX.  The SAT effort grows ~5x per extra haystack
+ * character (all characters, pos and both lengths are symbolic), so the quick tier stops one short of the thorough tier. */
+#define HCAP 6
+#define NCAP 3
+#ifdef VF_TIER_THOROUGH
+#define HMAX 6
+#define HSML 6
+#define NSML 3
+#else
+#define HMAX 5
+#define HSML 4   /* rfind(view): three nested loops (find_end / search / compare) */
+#define NSML 2
+#endif
+#define NMAX 3
 #define BIG 65536UL /* loop-free and contract groups: view length <= BIG */
 
 /* snapshot for C05: a violated precondition must be detected before the view is touched */
@@ -28,21 +40,22 @@ SV vf_snap; SV *vf_snap_of;
 #define EXPECT_VIOLATION(v) do { vf_expect_handler = 1; vf_snap = (v); vf_snap_of = &(v); } while (0)
 #include "vf_handler.h"
 
-/* exact-size heap buffers. sv_alloc(n) is malloc(n * sizeof(CH)) written as a case split so that under CBMC every buffer is an
- * object of CONSTANT size (symbolic-size objects cost ~5x in the SAT encoding); natively it is the very same malloc, including
- * malloc(0) for the empty view so that ASan reports h[0] on an empty view. */
-static CH *sv_alloc(unsigned long n) { switch (n) {
-  case 0: return (CH *)malloc(0); case 1: return (CH *)malloc(1 * sizeof(CH)); case 2: return (CH *)malloc(2 * sizeof(CH)); case 3: return (CH *)malloc(3 * sizeof(CH));
-  case 4: return (CH *)malloc(4 * sizeof(CH)); case 5: return (CH *)malloc(5 * sizeof(CH)); case 6: return (CH *)malloc(6 * sizeof(CH)); default: return (CH *)malloc(n * sizeof(CH)); } }
-/* buffer `name` of n characters (n symbolic <= MAX), copied from the input array name_in; no terminator, nothing behind it */
+/* Bounded groups: the viewed range is a window [off, off+n) of a heap object of exactly MAX characters, where the placement is
+ * symbolic: flush with the END of the object (a one-past read is out of bounds; the empty view then begins one past the end, so
+ * ANY read through it is out of bounds) or flush with its BEGIN (a read before begin() is out of bounds).  What the implementation
+ * reads relative to the view cannot depend on the placement, so this detects exactly what an exact-size object of n characters
+ * detects, natively too (ASan on the malloc'ed object) - but CBMC sees one object of constant size instead of one per length,
+ * which is ~5x cheaper.  The loop-free groups (BIG_VIEW) and the contract groups (is_fresh) use exact-size objects.
+ * name_in is the input array the reference semantics read; no terminator is ever stored. */
 #define SV_BUF(name, n, MAX)                                                                                           \
-    VF_INPUT_ARR(CH, name##_in, (MAX) + 1); VF_INPUT(unsigned char, n); __CPROVER_assume(n <= (MAX));                  \
-    CH *name = sv_alloc(n);                                                                                            \
-    for (unsigned long i_##name = 0; i_##name < n; ++i_##name) name[i_##name] = name##_in[i_##name]
-/* the same characters as an exact-size C string: n characters and the terminator, nothing behind it */
-#define SV_CSTR(name, src_in, n)                                                                                       \
-    CH *name = sv_alloc((unsigned long)n + 1);                                                                         \
-    for (unsigned long j_##name = 0; j_##name < n; ++j_##name) name[j_##name] = src_in[j_##name];                      \
+    VF_INPUT_ARR(CH, name##_in, HCAP + 1); VF_INPUT(unsigned char, n); __CPROVER_assume(n <= (MAX));                   \
+    VF_INPUT_BOOL(name##_tail); CH *name##_obj = (CH *)malloc((MAX) * sizeof(CH));                                     \
+    CH *name = name##_obj + (name##_tail ? (MAX) - n : 0);                                                             \
+    for (unsigned long i_##name = 0; i_##name < (MAX); ++i_##name) if (i_##name < n) name[i_##name] = name##_in[i_##name]
+/* the same characters as a C string flush with the end of its object: n characters and the terminator, nothing behind it */
+#define SV_CSTR(name, src_in, n, MAX)                                                                                  \
+    CH *name##_obj = (CH *)malloc(((MAX) + 1) * sizeof(CH)); CH *name = name##_obj + ((MAX) - n);                      \
+    for (unsigned long j_##name = 0; j_##name < (MAX); ++j_##name) if (j_##name < n) name[j_##name] = src_in[j_##name]; \
     name[n] = 0
 #define SV_VIEW(v, p, n) SV v; v._begin = p; v._size = n
 /* view of unbounded length (<= BIG) with arbitrary contents, for loop-free functions */
@@ -50,59 +63,59 @@ static CH *sv_alloc(unsigned long n) { switch (n) {
 
 /* ---- reference semantics ------------------------------------------------------------------------------------------------ */
 static unsigned long r_min(unsigned long a, unsigned long b) { return a < b ? a : b; }
-static unsigned long r_strlen(const CH *s, unsigned long cap) { for (unsigned long i = 0; i < NMAX; ++i) { if (i >= cap) break; if (s[i] == 0) return i; } return cap; }
+static unsigned long r_strlen(const CH *s, unsigned long cap) { for (unsigned long i = 0; i < NCAP; ++i) { if (i >= cap) break; if (s[i] == 0) return i; } return cap; }
 /* h[x, x+nn) == n[0, nn); the caller guarantees x + nn <= hn */
-static _Bool r_match(const CH *h, unsigned long x, const CH *n, unsigned long nn) { for (unsigned long i = 0; i < NMAX; ++i) if (i < nn && h[x + i] != n[i]) return 0; return 1; }
-static _Bool r_in(CH c, const CH *n, unsigned long nn) { for (unsigned long i = 0; i < NMAX; ++i) if (i < nn && n[i] == c) return 1; return 0; }
+static _Bool r_match(const CH *h, unsigned long x, const CH *n, unsigned long nn) { for (unsigned long i = 0; i < NCAP; ++i) if (i < nn && h[x + i] != n[i]) return 0; return 1; }
+static _Bool r_in(CH c, const CH *n, unsigned long nn) { for (unsigned long i = 0; i < NCAP; ++i) if (i < nn && n[i] == c) return 1; return 0; }
 /* find: lowest xpos with pos <= xpos, xpos + nn <= hn, traits::eq(at(xpos+I), str.at(I)) for all I */
 static unsigned long r_find(const CH *h, unsigned long hn, const CH *n, unsigned long nn, unsigned long pos) {
-  for (unsigned long x = 0; x <= HMAX; ++x) { if (x < pos || x > hn || nn > hn - x) continue; if (r_match(h, x, n, nn)) return x; } return NPOS; }
+  for (unsigned long x = 0; x <= HCAP; ++x) { if (x < pos || x > hn || nn > hn - x) continue; if (r_match(h, x, n, nn)) return x; } return NPOS; }
 /* rfind: highest xpos with xpos <= pos, xpos + nn <= hn, ... */
 static unsigned long r_rfind(const CH *h, unsigned long hn, const CH *n, unsigned long nn, unsigned long pos) {
-  for (unsigned long j = 0; j <= HMAX; ++j) { unsigned long x = HMAX - j; if (x > pos || x > hn || nn > hn - x) continue; if (r_match(h, x, n, nn)) return x; } return NPOS; }
+  for (unsigned long j = 0; j <= HCAP; ++j) { unsigned long x = HCAP - j; if (x > pos || x > hn || nn > hn - x) continue; if (r_match(h, x, n, nn)) return x; } return NPOS; }
 /* find_first_of / find_first_not_of: lowest xpos with pos <= xpos < hn and at(xpos) (not) in str */
 static unsigned long r_ffo(const CH *h, unsigned long hn, const CH *n, unsigned long nn, unsigned long pos) {
-  for (unsigned long x = 0; x < HMAX; ++x) { if (x < pos || x >= hn) continue; if (r_in(h[x], n, nn)) return x; } return NPOS; }
+  for (unsigned long x = 0; x < HCAP; ++x) { if (x < pos || x >= hn) continue; if (r_in(h[x], n, nn)) return x; } return NPOS; }
 static unsigned long r_ffno(const CH *h, unsigned long hn, const CH *n, unsigned long nn, unsigned long pos) {
-  for (unsigned long x = 0; x < HMAX; ++x) { if (x < pos || x >= hn) continue; if (!r_in(h[x], n, nn)) return x; } return NPOS; }
+  for (unsigned long x = 0; x < HCAP; ++x) { if (x < pos || x >= hn) continue; if (!r_in(h[x], n, nn)) return x; } return NPOS; }
 /* find_last_of / find_last_not_of: highest xpos with xpos <= pos, xpos < hn and at(xpos) (not) in str */
 static unsigned long r_flo(const CH *h, unsigned long hn, const CH *n, unsigned long nn, unsigned long pos) {
-  for (unsigned long j = 1; j <= HMAX; ++j) { unsigned long x = HMAX - j; if (x > pos || x >= hn) continue; if (r_in(h[x], n, nn)) return x; } return NPOS; }
+  for (unsigned long j = 1; j <= HCAP; ++j) { unsigned long x = HCAP - j; if (x > pos || x >= hn) continue; if (r_in(h[x], n, nn)) return x; } return NPOS; }
 static unsigned long r_flno(const CH *h, unsigned long hn, const CH *n, unsigned long nn, unsigned long pos) {
-  for (unsigned long j = 1; j <= HMAX; ++j) { unsigned long x = HMAX - j; if (x > pos || x >= hn) continue; if (!r_in(h[x], n, nn)) return x; } return NPOS; }
+  for (unsigned long j = 1; j <= HCAP; ++j) { unsigned long x = HCAP - j; if (x > pos || x >= hn) continue; if (!r_in(h[x], n, nn)) return x; } return NPOS; }
 /* compare: traits::compare over rlen = min(an, bn) (the first position where lt holds either way decides), then the lengths */
 static int r_cmp(const CH *a, unsigned long an, const CH *b, unsigned long bn) {
-  for (unsigned long i = 0; i < HMAX; ++i) { if (i >= an || i >= bn) break; if (LT(a[i], b[i])) return -1; if (LT(b[i], a[i])) return 1; }
+  for (unsigned long i = 0; i < HCAP; ++i) { if (i >= an || i >= bn) break; if (LT(a[i], b[i])) return -1; if (LT(b[i], a[i])) return 1; }
   return an < bn ? -1 : (an > bn ? 1 : 0); }
 #define SGN(x) ((x) < 0 ? -1 : ((x) > 0 ? 1 : 0))
 /* first position where the two sequences differ, or min(an, bn) */
 static unsigned long r_mismatch(const CH *a, unsigned long an, const CH *b, unsigned long bn) {
-  for (unsigned long i = 0; i < HMAX; ++i) { if (i >= an || i >= bn) return i; if (a[i] != b[i]) return i; } return r_min(an, bn); }
+  for (unsigned long i = 0; i < HCAP; ++i) { if (i >= an || i >= bn) return i; if (a[i] != b[i]) return i; } return r_min(an, bn); }
 
 /* ---- witness classes of the known findings (predicates over harness inputs only) ---------------------------------------------- */
 /* find(view,pos): the inner compare runs past the end when the haystack ENDS with a proper non-empty prefix of the needle at some
  * x >= pos and no full match precedes it (then there is none at all) */
 static _Bool w_find_tail(const CH *h, unsigned long hn, const CH *n, unsigned long nn, unsigned long pos) {
   if (nn < 2 || pos > hn || nn > hn - pos || r_find(h, hn, n, nn, pos) != NPOS) return 0;
-  for (unsigned long x = 0; x < HMAX; ++x) { if (x < pos || x >= hn || hn - x >= nn) continue; if (r_match(h, x, n, hn - x)) return 1; } return 0; }
+  for (unsigned long x = 0; x < HCAP; ++x) { if (x < pos || x >= hn || hn - x >= nn) continue; if (r_match(h, x, n, hn - x)) return 1; } return 0; }
 /* compare / relational on char: the sign is decided at the first mismatch by SIGNED char order although traits::lt is unsigned */
 static _Bool w_cmp_signed(const CH *a, unsigned long an, const CH *b, unsigned long bn) {
   unsigned long m = r_mismatch(a, an, b, bn); return VF_CT == 0 && m < an && m < bn && (a[m] < 0) != (b[m] < 0); }
 
 /* ---- shared shape of the six search families ---------------------------------------------------------------------------- */
 /* (en, enn, ep) = needle and position by which the standard defines the overload that is called */
-#define HAYSTACK(DEFPOS)                                                                                               \
-    SV_BUF(hay, hn, HMAX); SV_VIEW(h, hay, hn); VF_INPUT(unsigned long, pos); VF_INPUT_BOOL(dflt);                     \
+#define HAYSTACK(HM, DEFPOS)                                                                                           \
+    SV_BUF(hay, hn, HM); SV_VIEW(h, hay, hn); VF_INPUT(unsigned long, pos); VF_INPUT_BOOL(dflt);                     \
     unsigned long ep = dflt ? (DEFPOS) : pos
 /* overloads (view,pos) and (view) */
-#define NEEDLE_V() SV_BUF(nd, nn, NMAX); SV_VIEW(n, nd, nn); const CH *en = nd_in; unsigned long enn = nn
+#define NEEDLE_V(NM) SV_BUF(nd, nn, NM); SV_VIEW(n, nd, nn); const CH *en = nd_in; unsigned long enn = nn
 #define CALL_V(F) (dflt ? sv_##F##_vd(&h, &n) : sv_##F##_v(&h, &n, pos))
 /* overloads (ptr,pos,count), (C string,pos), (C string) */
-#define NEEDLE_P() SV_BUF(nd, nn, NMAX); SV_CSTR(cs, nd_in, nn); VF_INPUT_BOOL(counted); __CPROVER_assume(!(counted && dflt));   \
+#define NEEDLE_P(NM) SV_BUF(nd, nn, NM); SV_CSTR(cs, nd_in, nn, NM); VF_INPUT_BOOL(counted); __CPROVER_assume(!(counted && dflt));   \
     const CH *en = nd_in; unsigned long enn = counted ? nn : r_strlen(nd_in, nn)
 #define CALL_P(F) (counted ? sv_##F##_pn(&h, nd, pos, nn) : (dflt ? sv_##F##_pd(&h, cs) : sv_##F##_p(&h, cs, pos)))
 /* overloads (char,pos), (char) */
-#define NEEDLE_C() VF_INPUT_ARR(CH, nd_in, 1); CH c = nd_in[0]; const CH *en = nd_in; unsigned long enn = 1
+#define NEEDLE_C() VF_INPUT_ARR(CH, nd_in, NCAP + 1); CH c = nd_in[0]; const CH *en = nd_in; unsigned long enn = 1
 #define CALL_C(F) (dflt ? sv_##F##_cd(&h, c) : sv_##F##_c(&h, c, pos))
 #define SEARCH_CHECK(r, REF, WHAT)                                                                                     \
     VF_ASSERT(r == REF(hay_in, hn, en, enn, ep), WHAT);                                                                \
@@ -115,74 +128,74 @@ static _Bool w_cmp_signed(const CH *a, unsigned long an, const CH *b, unsigned l
 #define T_FFNO "find_first_not_of: lowest xpos >= pos, xpos < size() with at(xpos) not in the set, else npos"
 #define T_FLNO "find_last_not_of: highest xpos <= pos, xpos < size() with at(xpos) not in the set, else npos"
 
-/*@GROUP name=find props=C08,C02,C05 kind=B unwind=8 bound=haystack<=6,needle<=3 cost=3@*/
-void h_find(void) { HAYSTACK(0UL); NEEDLE_V();
+/*@GROUP name=find props=C08,C02,C05 kind=B unwind=8 bound=haystack<=5(quick)/6(thorough),needle<=3 cost=3@*/
+void h_find(void) { HAYSTACK(HMAX, 0UL); NEEDLE_V(NMAX);
   VF_KNOWN(C08_find_empty_needle, enn == 0 && ep <= hn);
   VF_KNOWN(C08_find_tail_overread, w_find_tail(hay_in, hn, en, enn, ep));
   unsigned long r = CALL_V(find); SEARCH_CHECK(r, r_find, T_FIND); }
 
-/*@GROUP name=find_ptr props=C08,C02,C05 kind=B unwind=8 bound=haystack<=6,needle<=3 cost=3@*/
-void h_find_ptr(void) { HAYSTACK(0UL); NEEDLE_P();
+/*@GROUP name=find_ptr props=C08,C02,C05 kind=B unwind=8 bound=haystack<=5(quick)/6(thorough),needle<=3 cost=3@*/
+void h_find_ptr(void) { HAYSTACK(HMAX, 0UL); NEEDLE_P(NMAX);
   VF_KNOWN(C08_find_empty_needle, enn == 0 && ep <= hn);
   VF_KNOWN(C08_find_tail_overread, w_find_tail(hay_in, hn, en, enn, ep));
   unsigned long r = CALL_P(find); SEARCH_CHECK(r, r_find, T_FIND); }
 
-/*@GROUP name=find_ch props=C08,C02,C05 kind=B unwind=8 bound=haystack<=6@*/
-void h_find_ch(void) { HAYSTACK(0UL); NEEDLE_C(); unsigned long r = CALL_C(find); SEARCH_CHECK(r, r_find, T_FIND); }
+/*@GROUP name=find_ch props=C08,C02,C05 kind=B unwind=8 bound=haystack<=5(quick)/6(thorough)@*/
+void h_find_ch(void) { HAYSTACK(HMAX, 0UL); NEEDLE_C(); unsigned long r = CALL_C(find); SEARCH_CHECK(r, r_find, T_FIND); }
 
-/*@GROUP name=rfind props=C08,C02,C05 kind=B unwind=8 bound=haystack<=6,needle<=3 cost=3@*/
-void h_rfind(void) { HAYSTACK(NPOS); NEEDLE_V(); unsigned long r = CALL_V(rfind); SEARCH_CHECK(r, r_rfind, T_RFIND); }
+/*@GROUP name=rfind props=C08,C02,C05 kind=B unwind=8 bound=haystack<=4(quick)/6(thorough),needle<=2(quick)/3(thorough) cost=3@*/
+void h_rfind(void) { HAYSTACK(HSML, NPOS); NEEDLE_V(NSML); unsigned long r = CALL_V(rfind); SEARCH_CHECK(r, r_rfind, T_RFIND); }
 
-/*@GROUP name=rfind_ptr props=C08,C02,C05 kind=B unwind=8 bound=haystack<=6,needle<=3 cost=3@*/
-void h_rfind_ptr(void) { HAYSTACK(NPOS); NEEDLE_P(); unsigned long r = CALL_P(rfind); SEARCH_CHECK(r, r_rfind, T_RFIND); }
+/*@GROUP name=rfind_ptr props=C08,C02,C05 kind=B unwind=8 bound=haystack<=4(quick)/6(thorough),needle<=2(quick)/3(thorough) cost=3@*/
+void h_rfind_ptr(void) { HAYSTACK(HSML, NPOS); NEEDLE_P(NSML); unsigned long r = CALL_P(rfind); SEARCH_CHECK(r, r_rfind, T_RFIND); }
 
-/*@GROUP name=rfind_ch props=C08,C02,C05 kind=B unwind=8 bound=haystack<=6@*/
-void h_rfind_ch(void) { HAYSTACK(NPOS); NEEDLE_C(); unsigned long r = CALL_C(rfind); SEARCH_CHECK(r, r_rfind, T_RFIND); }
+/*@GROUP name=rfind_ch props=C08,C02,C05 kind=B unwind=8 bound=haystack<=5(quick)/6(thorough)@*/
+void h_rfind_ch(void) { HAYSTACK(HMAX, NPOS); NEEDLE_C(); unsigned long r = CALL_C(rfind); SEARCH_CHECK(r, r_rfind, T_RFIND); }
 
-/*@GROUP name=first_of props=C08,C02,C05 kind=B unwind=8 bound=haystack<=6,set<=3 cost=2@*/
-void h_first_of(void) { HAYSTACK(0UL); NEEDLE_V(); unsigned long r = CALL_V(find_first_of); SEARCH_CHECK(r, r_ffo, T_FFO); }
+/*@GROUP name=first_of props=C08,C02,C05 kind=B unwind=8 bound=haystack<=5(quick)/6(thorough),set<=3 cost=2@*/
+void h_first_of(void) { HAYSTACK(HMAX, 0UL); NEEDLE_V(NMAX); unsigned long r = CALL_V(find_first_of); SEARCH_CHECK(r, r_ffo, T_FFO); }
 
-/*@GROUP name=first_of_ptr props=C08,C02,C05 kind=B unwind=8 bound=haystack<=6,set<=3 cost=2@*/
-void h_first_of_ptr(void) { HAYSTACK(0UL); NEEDLE_P(); unsigned long r = CALL_P(find_first_of); SEARCH_CHECK(r, r_ffo, T_FFO); }
+/*@GROUP name=first_of_ptr props=C08,C02,C05 kind=B unwind=8 bound=haystack<=5(quick)/6(thorough),set<=3 cost=2@*/
+void h_first_of_ptr(void) { HAYSTACK(HMAX, 0UL); NEEDLE_P(NMAX); unsigned long r = CALL_P(find_first_of); SEARCH_CHECK(r, r_ffo, T_FFO); }
 
-/*@GROUP name=first_of_ch props=C08,C02,C05 kind=B unwind=8 bound=haystack<=6@*/
-void h_first_of_ch(void) { HAYSTACK(0UL); NEEDLE_C(); unsigned long r = CALL_C(find_first_of); SEARCH_CHECK(r, r_ffo, T_FFO); }
+/*@GROUP name=first_of_ch props=C08,C02,C05 kind=B unwind=8 bound=haystack<=5(quick)/6(thorough)@*/
+void h_first_of_ch(void) { HAYSTACK(HMAX, 0UL); NEEDLE_C(); unsigned long r = CALL_C(find_first_of); SEARCH_CHECK(r, r_ffo, T_FFO); }
 
-/*@GROUP name=last_of props=C08,C02,C05 kind=B unwind=8 bound=haystack<=6,set<=3 cost=2@*/
-void h_last_of(void) { HAYSTACK(NPOS); NEEDLE_V();
+/*@GROUP name=last_of props=C08,C02,C05 kind=B unwind=8 bound=haystack<=5(quick)/6(thorough),set<=3 cost=2@*/
+void h_last_of(void) { HAYSTACK(HMAX, NPOS); NEEDLE_V(NMAX);
   VF_KNOWN(C08_find_last_empty_view, hn == 0);
   unsigned long r = CALL_V(find_last_of); SEARCH_CHECK(r, r_flo, T_FLO); }
 
-/*@GROUP name=last_of_ptr props=C08,C02,C05 kind=B unwind=8 bound=haystack<=6,set<=3 cost=2@*/
-void h_last_of_ptr(void) { HAYSTACK(NPOS); NEEDLE_P();
+/*@GROUP name=last_of_ptr props=C08,C02,C05 kind=B unwind=8 bound=haystack<=5(quick)/6(thorough),set<=3 cost=2@*/
+void h_last_of_ptr(void) { HAYSTACK(HMAX, NPOS); NEEDLE_P(NMAX);
   VF_KNOWN(C08_find_last_empty_view, hn == 0);
   unsigned long r = CALL_P(find_last_of); SEARCH_CHECK(r, r_flo, T_FLO); }
 
-/*@GROUP name=last_of_ch props=C08,C02,C05 kind=B unwind=8 bound=haystack<=6@*/
-void h_last_of_ch(void) { HAYSTACK(NPOS); NEEDLE_C();
+/*@GROUP name=last_of_ch props=C08,C02,C05 kind=B unwind=8 bound=haystack<=5(quick)/6(thorough)@*/
+void h_last_of_ch(void) { HAYSTACK(HMAX, NPOS); NEEDLE_C();
   VF_KNOWN(C08_find_last_empty_view, hn == 0);
   unsigned long r = CALL_C(find_last_of); SEARCH_CHECK(r, r_flo, T_FLO); }
 
-/*@GROUP name=first_not_of props=C08,C02,C05 kind=B unwind=8 bound=haystack<=6,set<=3 cost=2@*/
-void h_first_not_of(void) { HAYSTACK(0UL); NEEDLE_V(); unsigned long r = CALL_V(find_first_not_of); SEARCH_CHECK(r, r_ffno, T_FFNO); }
+/*@GROUP name=first_not_of props=C08,C02,C05 kind=B unwind=8 bound=haystack<=5(quick)/6(thorough),set<=3 cost=2@*/
+void h_first_not_of(void) { HAYSTACK(HMAX, 0UL); NEEDLE_V(NMAX); unsigned long r = CALL_V(find_first_not_of); SEARCH_CHECK(r, r_ffno, T_FFNO); }
 
-/*@GROUP name=first_not_of_ptr props=C08,C02,C05 kind=B unwind=8 bound=haystack<=6,set<=3 cost=2@*/
-void h_first_not_of_ptr(void) { HAYSTACK(0UL); NEEDLE_P(); unsigned long r = CALL_P(find_first_not_of); SEARCH_CHECK(r, r_ffno, T_FFNO); }
+/*@GROUP name=first_not_of_ptr props=C08,C02,C05 kind=B unwind=8 bound=haystack<=5(quick)/6(thorough),set<=3 cost=2@*/
+void h_first_not_of_ptr(void) { HAYSTACK(HMAX, 0UL); NEEDLE_P(NMAX); unsigned long r = CALL_P(find_first_not_of); SEARCH_CHECK(r, r_ffno, T_FFNO); }
 
-/*@GROUP name=first_not_of_ch props=C08,C02,C05 kind=B unwind=8 bound=haystack<=6@*/
-void h_first_not_of_ch(void) { HAYSTACK(0UL); NEEDLE_C(); unsigned long r = CALL_C(find_first_not_of); SEARCH_CHECK(r, r_ffno, T_FFNO); }
+/*@GROUP name=first_not_of_ch props=C08,C02,C05 kind=B unwind=8 bound=haystack<=5(quick)/6(thorough)@*/
+void h_first_not_of_ch(void) { HAYSTACK(HMAX, 0UL); NEEDLE_C(); unsigned long r = CALL_C(find_first_not_of); SEARCH_CHECK(r, r_ffno, T_FFNO); }
 
-/*@GROUP name=last_not_of props=C08,C02,C05 kind=B unwind=8 bound=haystack<=6,set<=3 cost=2@*/
-void h_last_not_of(void) { HAYSTACK(NPOS); NEEDLE_V();
+/*@GROUP name=last_not_of props=C08,C02,C05 kind=B unwind=8 bound=haystack<=5(quick)/6(thorough),set<=3 cost=2@*/
+void h_last_not_of(void) { HAYSTACK(HMAX, NPOS); NEEDLE_V(NMAX);
   VF_KNOWN(C08_find_last_empty_view, hn == 0);
   unsigned long r = CALL_V(find_last_not_of); SEARCH_CHECK(r, r_flno, T_FLNO); }
 
-/*@GROUP name=last_not_of_ptr props=C08,C02,C05 kind=B unwind=8 bound=haystack<=6,set<=3 cost=2@*/
-void h_last_not_of_ptr(void) { HAYSTACK(NPOS); NEEDLE_P();
+/*@GROUP name=last_not_of_ptr props=C08,C02,C05 kind=B unwind=8 bound=haystack<=5(quick)/6(thorough),set<=3 cost=2@*/
+void h_last_not_of_ptr(void) { HAYSTACK(HMAX, NPOS); NEEDLE_P(NMAX);
   VF_KNOWN(C08_find_last_empty_view, hn == 0);
   unsigned long r = CALL_P(find_last_not_of); SEARCH_CHECK(r, r_flno, T_FLNO); }
 
-/*@GROUP name=last_not_of_ch props=C08,C02,C05 kind=B unwind=8 bound=haystack<=6@*/
-void h_last_not_of_ch(void) { HAYSTACK(NPOS); NEEDLE_C();
+/*@GROUP name=last_not_of_ch props=C08,C02,C05 kind=B unwind=8 bound=haystack<=5(quick)/6(thorough)@*/
+void h_last_not_of_ch(void) { HAYSTACK(HMAX, NPOS); NEEDLE_C();
   VF_KNOWN(C08_find_last_empty_view, hn == 0);
   unsigned long r = CALL_C(find_last_not_of); SEARCH_CHECK(r, r_flno, T_FLNO); }
